@@ -79,13 +79,17 @@ def gen_recipe(rng, fmt, tier="quick"):
             r["dims"] = [["time", nt], ["site", rng.choice([1, 2, 3, 4])]]
             if rng.random() < 0.25:
                 r["dims"] = [["site", r["dims"][1][1]], ["time", nt]]
+        if rng.random() < 0.12:
+            r["dims"] = [d for d in r["dims"] if d[0] != "time"]      # a dataset without a time dimension
     elif base == "octopus":
         r["dims"] = [["time", rng.choice([1, 2, 3, 4])], ["site", 1]]
         r["nd"] = rng.choice(WHOLE_DEG_ND)
         r["dir"]["dir0"] = rng.choice([0.0, 0.0, 5.0, 1.0])
         r["dt_s"] = rng.choice([3600, 1800, 10800, 60, 86400])
         r["freq"] = {"kind": "log", "f0": rng.choice([0.04, 0.05]), "r": rng.choice([1.2, 1.3, 1.4])}
-        r["nf"] = rng.randint(6, 10)  # frequency range spans fcut=0.125
+        r["nf"] = rng.randint(6, 10)
+        while D.make_freq(r["nf"], r["freq"]).max() < 0.13:      # frequency range spans fcut=0.125
+            r["nf"] += 1
         r["round_freq"] = 6
     elif base == "json":
         r["dims"] = rng.choice([[["time", nt], ["site", 2]], [["time", nt]], [], [["time", nt], ["lat", 2], ["lon", 3]], [["site", 3]]])
@@ -94,7 +98,7 @@ def gen_recipe(rng, fmt, tier="quick"):
     elif base == "ww3":
         r["dims"] = [["time", nt], ["site", rng.choice([1, 2, 3])]]
     elif base == "netcdf":
-        r["dims"] = rng.choice([[["time", nt], ["site", 2]], [["time", nt]], [["time", nt], ["lat", 2], ["lon", 3]], [["site", 3], ["time", nt]]])
+        r["dims"] = rng.choice([[["time", nt], ["site", 2]], [["time", nt]], [["time", nt], ["lat", 2], ["lon", 3]], [["site", 3], ["time", nt]], [["site", 2]], []])
     elif base == "funwave":
         r["dims"] = []
         r["nd"] = rng.choice([4, 6, 8, 9, 12, 24, 36])
@@ -123,7 +127,7 @@ def gen_recipe(rng, fmt, tier="quick"):
     if npos > 0 and rng.random() < 0.25 and base != "funwave":
         r["data"]["calm_at"] = rng.randrange(npos)
         r["data"]["calm_scale"] = rng.choice([1e-5, 1e-7, 1e-9, 1e-15])
-    if base in ("json", "swan", "netcdf") and rng.random() < 0.08:
+    if base in ("json", "swan") and rng.random() < 0.08:     # (NETCDF3 has no 64-bit integers to hold such times)
         # whole-second time stamps outside the range of nanosecond datetimes
         r["time_unit"] = "s"
         r["t0"] = rng.choice(["2299-12-31T18:00:00", "1600-05-06T07:08:09", "2500-01-01T00:00:00"])
@@ -155,9 +159,9 @@ def gen_plan(rng, tier="quick"):
             steps.append(st)
             files[name] = fmt
             if rng.random() < 0.6:
-                steps.append({"op": "read", "file": name, "short_reads": rng.random() < 0.3})
+                steps.append({"op": "read", "file": name, "short_reads": rng.random() < 0.3, "engine": rng.random() < 0.2})
         elif kind == "read":
-            steps.append({"op": "read", "file": rng.choice(sorted(files)), "short_reads": rng.random() < 0.3})
+            steps.append({"op": "read", "file": rng.choice(sorted(files)), "short_reads": rng.random() < 0.3, "engine": rng.random() < 0.2})
         else:
             sw = [f for f, fm in files.items() if fm.startswith("swan")]
             if sw:
@@ -227,10 +231,19 @@ def do_write(ds, fmt, path, kw):
     raise ValueError(fmt)
 
 
-def do_read(fmt, path, recipe):
+def do_read(fmt, path, recipe, engine=False):
     import wavespectra as ws
 
     base = fmt.split("_")[0]
+    if engine:
+        # the matching reader reached through xarray: xr.open_dataset(path, engine=<format>)
+        import xarray as xr
+
+        kw = {}
+        if base == "swan" and not recipe.get("read_default"):
+            kw["as_site"] = not any(k == "lat" for k, _ in recipe["dims"])
+        with xr.open_dataset(path, engine=base, **kw) as d:
+            return d.load()
     if base == "swan":
         grid = any(k == "lat" for k, _ in recipe["dims"])
         if recipe.get("read_default"):
@@ -249,6 +262,25 @@ def do_read(fmt, path, recipe):
     if base == "funwave":
         return ws.read_funwave(path)
     raise ValueError(fmt)
+
+
+def out_of_scope(st):
+    """Reason why this write is outside what the format / writer documents it can express, else None.
+    (Plan simplification can shrink a recipe out of a format's scope; such a refusal is not a verdict.)"""
+    r, base = st["recipe"], st["fmt"].split("_")[0]
+    if base == "octopus":
+        f = D.make_freq(r["nf"], r.get("freq", {}))
+        fcut = st["kw"].get("fcut", 0.125)
+        if not (f.min() <= fcut <= f.max()):
+            return "fcut outside the frequency range (documented precondition of to_octopus)"
+    if base == "netcdf" and any(k == "time" for k, _ in r["dims"]):
+        # the only netCDF flavour installed here is NETCDF3 (scipy): whole seconds since 1970 are stored as int32
+        nt = dict((k, n) for k, n in r["dims"])["time"]
+        t0 = np.datetime64(r.get("t0", "2020-01-01T00:00:00"), "s").astype("int64")
+        t1 = t0 + int(r.get("dt_s", 3600)) * (nt + 1) * (3 if r.get("time_irregular") else 1)
+        if r.get("time_unit", "ns") != "ns" or min(t0, t1) < -2**31 or max(t0, t1) >= 2**31:
+            return "NETCDF3 cannot hold 64-bit time offsets (seconds since 1970 beyond int32)"
+    return None
 
 
 def features(st, history):
@@ -289,6 +321,8 @@ def features(st, history):
         f.append("north-as-360")
     if r.get("time_irregular") and nt > 2:
         f.append("uneven-time-steps")
+    if "time" not in dims and st["fmt"].split("_")[0] in ("swan", "netcdf"):
+        f.append("no-time-dim")
     if r.get("origin_site") and "site" in dims:
         f.append("site-at-origin" if (r.get("lon0") == 0.0 and r.get("lat0") == 0.0) else "site-at-lon0-lat0")
     if r.get("with_winds") and not st["fmt"].startswith("octopus"):
@@ -567,6 +601,13 @@ def execute(arg):
                     model.pop(st["file"], None)
                     tags.append("failed")
                     sim.count("writes_raised")
+                    if not fired and not st.get("fault") and out_of_scope(st):
+                        sim.count("writes_refused_out_of_scope")
+                    elif not fired and not st.get("fault"):
+                        # nothing failed underneath: the writer itself refuses a dataset of its documented scope
+                        exc = held[-1][1]
+                        viol.append({"property": PROPERTY, "signature": f"C11/write/{st['fmt'].split('_')[0]}/{features(st, [])}/raises-{type(exc).__name__}", "step": i,
+                                     "detail": f"step {i}: writing {D.describe(st['recipe'])} dims={st['recipe']['dims']} as {st['fmt']} (kw={st['kw']}) with no I/O fault raises {type(exc).__name__}: {exc}".replace(root, "<fs>")[:900]})
                     if fired:
                         sim.count("writes_aborted_by_fault")
                         if "close_err" in fired:
@@ -595,9 +636,9 @@ def execute(arg):
                 exp, _, lonlat = expected_dataset(w["recipe"], w["fmt"])
                 sim.count("reads")
                 base = w["fmt"].split("_")[0]
-                cause = features(w, h)
+                cause = features(w, h) + ("+via-xarray-engine" if st.get("engine") else "")
                 try:
-                    got = do_read(w["fmt"], path, w["recipe"])
+                    got = do_read(w["fmt"], path, w["recipe"], engine=bool(st.get("engine")))
                 except Exception as exc:
                     viol.append({"property": PROPERTY, "signature": f"C11/roundtrip/{base}/{cause}/read-raises-{type(exc).__name__}", "step": i,
                                  "detail": f"step {i}: reading {st['file']} (acknowledged {w['fmt']} write of {D.describe(w['recipe'])}, kw={w['kw']}, history={h}) raises {type(exc).__name__}: {exc}".replace(root, "<fs>")[:900]})
